@@ -30,6 +30,7 @@ def shards(tier, seed):
         out.append({'name': f'slow{j}', 'what': 'slow', 'part': j})
     for j in range(3):
         out.append({'name': f'odd{j}', 'what': 'odd', 'mod': 3, 'rem': j})
+    out.append({'name': 'proc', 'what': 'proc'})
     for j in range(2):
         # pipelines below a pool prefetch under the controlled scheduler, every
         # line of core.py a switch point (machinery of C04)
@@ -253,7 +254,66 @@ def nontrivial(prog, status, m, o):
     return status == 'ok' and len(prog['ops']) >= 1 and m.n >= 1
 
 
+def run_proc(spec, res):
+    """Eager operations over a parallel stage with a PROCESS backend: plain
+    epochs, keyed iteration, new(ds) and cache(lazy=False) deliver the mapped
+    examples; over a source without keys the keyed iteration is refused
+    (loudly) and the eager copies fall back to a plain pass - they never come
+    back empty."""
+    import os
+    import json
+    import subprocess
+    from ..common import PYTHON, HOME, REPO
+    from ..procpool import BACKENDS, run_child
+    env = dict(os.environ, PYTHONPATH=f'{REPO}:{HOME}', OMP_NUM_THREADS='1',
+               MKL_NUM_THREADS='1')
+    want = [-i for i in range(6)]
+    for be in BACKENDS:
+        for via in ('parmap', 'prefetch'):
+            for keyed in (False, True):
+                sc = {'backend': be, 'via': via, 'keyed': keyed}
+                case = {'process_backend': sc}
+                sig = {'last_op': via, 'backend': be, 'harness': 'process-pool'}
+                res.case(('proc', be, via, keyed), True)
+                try:
+                    p = run_child([PYTHON, '-W', 'ignore', '-m', 'vlib.c01_child',
+                                   json.dumps(sc)], 120, cwd=str(HOME), env=env,
+                                  capture_output=True, text=True)
+                except subprocess.TimeoutExpired:
+                    res.violation('iteration-differs-from-reference', case,
+                                  {'consumer': 'never finished'}, sig=sig)
+                    continue
+                line = [l for l in p.stdout.splitlines() if l.startswith('RESULT ')]
+                if not line:
+                    res.inconclusive_because(f'process-pool child crashed: {p.stderr[-300:]}')
+                    continue
+                r = json.loads(line[0][7:])
+                res.count('process_pool_pipelines_checked')
+                bad = {}
+                # (pickle-based backends cannot ship the keyed fetch function,
+                # a local closure: keyed iteration of a keyed source is then
+                # refused loudly, and so are the eager copies that try it)
+                refused = r['items'] if keyed and r['items'][0] == 'raised' else None
+                for k in ('epoch1', 'epoch2', 'epoch3', 'new', 'eager-cache'):
+                    if r[k] != ['ok', want] and not (k in ('new', 'eager-cache')
+                                                     and refused and r[k] == refused):
+                        bad[k] = r[k]
+                if r['new-len'] != ['ok', 6] and not (refused and r['new-len'] == refused):
+                    bad['new-len'] = r['new-len']
+                if keyed:
+                    if r['items'][0] == 'ok' and r['items'][1] != [[f'k{i}', -i]
+                                                                   for i in range(6)]:
+                        bad['items'] = r['items']
+                elif r['items'][0] == 'ok':
+                    bad['items'] = r['items']          # no keys: must be refused
+                if bad:
+                    res.violation('iteration-differs-from-reference', case,
+                                  {'differs': bad, 'want': want}, sig=sig)
+
+
 def run_shard(spec, res):
+    if spec.get('what') == 'proc':
+        return run_proc(spec, res)
     if spec['what'] == 'slow':
         return run_slow(spec, res)
     if spec['what'] == 'odd':
